@@ -5,6 +5,8 @@ _FAMILIES = {
     "replay": ["C01", "C02", "C07", "C09"],
     "slot": ["C11"],
     "filter": ["C10"],
+    "resp": ["C12"],
+    "lease": ["C15"],
 }
 
 REGISTRY = {}
